@@ -157,7 +157,19 @@ Definition is_custom (p : parsed) : bool :=
 Definition has_with_sanitizer (p : parsed) : bool :=
   existsb (fun s => skind_eqb (skind_of s) KWith) (p_sans p).
 
+Definition count_kinds (ks : list vkind) (p : parsed) : nat :=
+  match p_validation p with
+  | Some (RVStandard vs) =>
+      List.length (filter (fun v => existsb (vkind_eqb (vkind_of v)) ks) vs)
+  | _ => O
+  end.
+
 Definition gen_checks (fam : family) (p : parsed) (ts : list trait) : verdict unit :=
+  (* the generated consistency test asks for THE lower and THE upper bound: two of a side
+     (possible only when at least one is an expression) make the macro panic *)
+  let! _ := guardv (is_numeric fam && (Nat.ltb 1 (count_kinds [KGreater; KGreaterOrEqual] p) ||
+                                       Nat.ltb 1 (count_kinds [KLess; KLessOrEqual] p)))
+                   "gen:two_bounds_of_a_side" in
   let! _ := guardv (has_trait TrDefault ts && match p_default p with None => true | Some _ => false end)
                    "gen:default_missing" in
   if has_trait TrArbitrary ts then
@@ -250,6 +262,24 @@ Definition rustc_checks (fam : family) (it : item) (en : env) (p : parsed) (ts :
   (* `From` of an "other" inner type calls Self::new, which exists only without validation *)
   let! _ := guardv (match fam with FAny _ => has_trait TrFrom ts && p_has_validation p | _ => false end)
                    "rustc:from_without_new" in
+  (* #[derive] dependencies enforced by rustc: Eq: PartialEq; PartialOrd: PartialEq;
+     Ord: PartialOrd + Eq; Copy: Clone *)
+  let! _ := guardv ((has_trait TrEq ts && negb (has_trait TrPartialEq ts)) ||
+                    (has_trait TrPartialOrd ts && negb (has_trait TrPartialEq ts)) ||
+                    (has_trait TrOrd ts && negb (has_trait TrPartialOrd ts && has_trait TrEq ts)) ||
+                    (has_trait TrCopy ts && negb (has_trait TrClone ts))) "rustc:derive_dependency" in
+  (* const fn bodies may only call const fns: closures, String / Vec operations and the
+     non-const library functions (custom `with` validators) do not qualify *)
+  let fn_forms := (flat_map (fun s => match s with SWith f => [fn_form f] | _ => [] end) (p_sans p) ++
+                  flat_map (fun v => match v with VPredicate f => [fn_form f] | _ => [] end) vs)%list in
+  let! _ := guardv (p_const_fn p &&
+                    (negb (is_numeric fam) || is_custom p ||
+                     existsb (fun f => match f with FPath => false | _ => true end) fn_forms))
+                   "rustc:const_fn_body" in
+  (* a closure as custom `with` validator is spliced as `#with(value)` without parentheses *)
+  let! _ := guardv (match p_validation p with
+                    | Some (RVCustom w _) => match fn_form w with FPath => false | _ => true end
+                    | _ => false end) "rustc:known:custom_with_closure" in
   let generic := negb (is_nil (it_generics it)) in
   let bounded := existsb (fun g => negb (is_nil (g_bounds g))) (it_generics it) in
   let! _ := guardv (generic && p_new_unchecked p) "rustc:known:new_unchecked_generics" in
